@@ -295,12 +295,24 @@ class FakeNode(RpcNode):
                 return _resp(200, '1000000000000')
             if rest[3:] == ['manager_key']:
                 return _resp(200, None)
+            if rest[3:] == ['script'] and addr.startswith('KT1'):      # every originated contract is the unit contract
+                return _resp(200, {'code': [{'prim': 'parameter', 'args': [{'prim': 'unit'}]}, {'prim': 'storage', 'args': [{'prim': 'unit'}]},
+                                            {'prim': 'code', 'args': [[{'prim': 'CDR'}, {'prim': 'NIL', 'args': [{'prim': 'operation'}]}, {'prim': 'PAIR'}]]}],
+                                   'storage': {'prim': 'Unit'}})
         if rest in (['helpers', 'scripts', 'run_operation'], ['helpers', 'scripts', 'simulate_operation']) and method == 'POST':
             return self._simulate(body)
         self.unknown.append((method, path))
         raise RpcError('Not found: %s' % path)
 
     # ---- simulation ----
+    FAIL_IDS = ('proto.024-PtTALLiN.contract.balance_too_low', 'failure', 'proto.024-PtTALLiN.michelson_v1.script_rejected', 'node.prevalidation.oversized_operation',
+                'proto.024-PtTALLiN.contract.manager.unregistered_delegate')
+
+    def _fail_id(self):
+        """error ids of different shapes take turns (one to five dot-separated components; octez uses all of them)"""
+        self._nfail = getattr(self, '_nfail', -1) + 1
+        return self.FAIL_IDS[(self._nfail + len(self.simulations)) % len(self.FAIL_IDS)]
+
     def _simulate(self, body):
         """run_operation: echo the contents with metadata.  The outcome of each call comes from `sim_script`
         (one entry per call; an entry is 'fail' or a list of per-content dicts
@@ -312,7 +324,7 @@ class FakeNode(RpcNode):
             c = dict(c)
             if spec == 'fail':
                 res = {'status': 'failed' if k == 0 else 'skipped',
-                       'errors': [{'kind': 'temporary', 'id': 'proto.024-PtTALLiN.contract.balance_too_low',
+                       'errors': [{'kind': 'temporary', 'id': self._fail_id(),
                                    'contract': self.address, 'balance': '0', 'amount': '1'}] if k == 0 else []}
                 if k > 0:
                     res.pop('errors')
